@@ -77,7 +77,8 @@ CHECKS = {
              'the tier and checks every clause of the property as an invariant; every explored '
              'behaviour is replayed into the real dtml-in and compared row by row; departures, a '
              'sample, random larger parameters and every navigation chain recorded from the real code '
-             'are validated by TLC against the same clauses.',
+             'are validated by TLC against the same clauses; the batch lists (next-batches / previous-batches) are '
+             'specified as repeated look-ahead (InvNextList, InvPrevList, InvListsAgree), replayed and validated likewise.',
         note='Sequences are lists/tuples of ints, parameters ints or numeric strings; announced '
              'neighbours are specified modulo clamping into 1..L; TLC and the JSON bridge are trusted.',
         ref='DESIGN.md section 4 C11'),
@@ -150,7 +151,7 @@ CHECKS = {
     'C13': dict(engine='DTSort',
         technique='TLA+ sort machine (DTSort) checked by TLC; behaviours replayed with seven key types; recorded orders '
                   'validated by TLC against the clauses (ObsSort)',
-        text='DTSort models decorate / stable insertion / reverse with the comparators of the function and the plain path; '
+        text='DTSort models decorate / stable insertion / reverse with the comparators of the function path (cmp, nocase, locale, locale_nocase, a function from the namespace) and of the plain path; '
              'TLC checks Permutation, Ordered, Stable, exact reverse and input-kept over all small lists x specs; every '
              'behaviour is replayed (str, int, float, bool, date, Decimal, callable keys; objects and mappings; sort= and '
              'sort_expr=; batched) and every departure plus a sample is validated by TLC on the recorded order.',
